@@ -163,8 +163,28 @@ def run_lines(exe, lines, timeout=3600):
     return out.split("\n")[:-1] if out.endswith("\n") else out.split("\n"), rc, err
 
 
-def run_driver(lines, timeout=3600):
-    outs, rc, err = run_lines([DRIVER, "run"], lines, timeout)
+def run_lines_parallel(exe, lines, jobs=14, timeout=3600):
+    """split the request list round-robin over `jobs` processes (the model is much slower than the real code on searches)"""
+    from concurrent.futures import ThreadPoolExecutor
+    jobs = max(1, min(jobs, len(lines) // 4 or 1))
+    if jobs == 1:
+        return run_lines(exe, lines, timeout)
+    chunks = [lines[i::jobs] for i in range(jobs)]
+    with ThreadPoolExecutor(max_workers=jobs) as ex:
+        results = list(ex.map(lambda c: run_lines(exe, c, timeout), chunks))
+    outs = [None] * len(lines)
+    rc_all, err_all = 0, ""
+    for j, (o, rc, err) in enumerate(results):
+        rc_all = rc_all or rc
+        err_all += err
+        o = o + ["<no-output>"] * (len(chunks[j]) - len(o))
+        for k, v in enumerate(o[:len(chunks[j])]):
+            outs[j + k * jobs] = v
+    return outs, rc_all, err_all
+
+
+def run_driver(lines, timeout=3600, jobs=1):
+    outs, rc, err = run_lines_parallel([DRIVER, "run"], lines, jobs, timeout) if jobs > 1 else run_lines([DRIVER, "run"], lines, timeout)
     res = []
     for o in outs:
         if " ||| " in o:
